@@ -271,6 +271,89 @@ def run_acceptor(ctx):
     ctx.coverage.setdefault("distribution", {})["acceptor"] = {"histories": len(good), "steps_with_clients_waiting": full_seen, "expiry": ex}
 
 
+SPIN_KINDS = ["reader-half-closed", "reader-half-closed-mid-message", "half-closed-before-auth", "writer-half-closed-with-backlog",
+              "stalled-reader-with-backlog"]
+
+
+def _cpu_seconds(pid):
+    with open("/proc/%d/stat" % pid) as f:
+        t = f.read().rsplit(")", 1)[1].split()
+    return (int(t[11]) + int(t[12])) / os.sysconf("SC_CLK_TCK")
+
+
+def spin_case(kind, quiet=1.0):
+    """a client does something odd with its socket and falls silent; for `quiet` seconds nothing at all happens on the bus: the daemon
+    must sit in poll() (CPU time ~ 0), and a bystander's call afterwards must be answered"""
+    import socket as _so
+    d = bus.Daemon(limits={"max_outgoing_bytes": 200000})
+    try:
+        o = bus.Client(d); bus.hello(o)
+        pid = d.proc.pid
+        c0 = _cpu_seconds(pid); time.sleep(0.5); idle = _cpu_seconds(pid) - c0
+        if kind == "half-closed-before-auth":
+            s = _so.socket(_so.AF_UNIX, _so.SOCK_STREAM); s.connect(d.path)
+            s.shutdown(_so.SHUT_RD)
+            s.sendall(b"\0AUTH EXTERNAL " + str(os.getuid()).encode().hex().encode() + b"\r\n")
+            keep = s
+        else:
+            c = bus.Client(d); bus.hello(c)
+            keep = c
+            big = bus.method_call(50, bus.BUS, bus.BUS_PATH, bus.BUS, "NameHasOwner", "s", [b"a.b" + b"c" * 200])
+            if kind == "reader-half-closed":
+                c.sock.shutdown(_so.SHUT_RD)
+                c.send(bus.method_call(c.next_serial(), bus.BUS, bus.BUS_PATH, bus.BUS, "GetId"))
+            elif kind == "reader-half-closed-mid-message":
+                c.sock.shutdown(_so.SHUT_RD)
+                blob = bus.method_call(c.next_serial(), bus.BUS, bus.BUS_PATH, bus.BUS, "GetId").marshal() + big.marshal()
+                c.sock.sendall(blob[:len(blob) - 7])
+            elif kind == "writer-half-closed-with-backlog":
+                for k in range(300):
+                    c.send(bus.method_call(c.next_serial(), bus.BUS, bus.BUS_PATH, bus.BUS, "ListNames"))
+                c.sock.shutdown(_so.SHUT_WR)
+            elif kind == "stalled-reader-with-backlog":
+                c.sock.setblocking(True)
+                try:
+                    c.sock.settimeout(2.0)
+                    for k in range(3000):
+                        c.sock.sendall(bus.method_call(1000 + k, bus.BUS, bus.BUS_PATH, bus.BUS, "ListNames").marshal())
+                except OSError:
+                    pass
+        time.sleep(0.3)
+        c0 = _cpu_seconds(pid); w0 = time.time(); time.sleep(quiet); used = _cpu_seconds(pid) - c0; wall = time.time() - w0
+        r, _ = bus.bus_call(o, "GetId", timeout=10.0)
+        served = r is not None and r.mtype == 2
+        try:
+            keep.close()
+        except Exception:
+            pass
+        return {"kind": kind, "cpu_idle_before": round(idle, 3), "cpu_during_quiet_second": round(used, 3), "wall": round(wall, 2),
+                "bystander_served": served, "alive": d.alive()}
+    finally:
+        d.stop()
+
+
+def run_spin(ctx):
+    res = []
+    for k in SPIN_KINDS:
+        try:
+            res.append(spin_case(k))
+        except (OSError, InfraError) as e:
+            res.append({"kind": k, "infra": repr(e)})
+    good = [r for r in res if "infra" not in r]
+    if len(good) < len(res) - 1:
+        raise InfraError("spin scenarios failed: %s" % [r for r in res if "infra" in r][:2])
+    ok = True
+    for r in good:
+        # a daemon asleep in poll() uses no CPU at all; one that spins uses all it can get (a loaded machine still gives it a good share)
+        if r["cpu_during_quiet_second"] > 0.3 * r["wall"] or not r["bystander_served"] or not r["alive"]:
+            ok = False
+            ctx.violate("the bus spins (or stops serving) after a client's '%s': %.2f s of CPU in a quiet %.2f s, bystander served: %s" %
+                        (r["kind"], r["cpu_during_quiet_second"], r["wall"], r["bystander_served"]), {"kind": "spin", "case": r["kind"], "observed": r}, True)
+    ctx.oblige("scenarios: the bus sleeps while nothing happens, whatever a client did to its socket before falling silent (%s)" %
+               ", ".join("%s: %.2f s CPU" % (r["kind"], r["cpu_during_quiet_second"]) for r in good), "correspondence", ok)
+    ctx.coverage.setdefault("distribution", {})["spin"] = res
+
+
 def run(ctx):
     check.lean_obligations(ctx, MODULE, THEOREMS)
     nh = 10 if ctx.quick() else 90
@@ -279,6 +362,7 @@ def run(ctx):
     for i, (label, kw, limits) in enumerate(PROFILES):
         good = buscheck.run_histories(ctx, nh, nops, oracle, gen_kw=kw, limits=limits, seed_salt=100 + i, label=label)
     run_acceptor(ctx)
+    run_spin(ctx)
     ctx.coverage["rule"] = ("histories of ordinary bus traffic interleaved with hostile clients: mutated messages (fields dropped/duplicated/retyped/unknown/invalid, "
                             "length words and fixed header bytes at limit values, bit flips), truncated messages left half-sent, garbage, valid+invalid+valid in one write, "
                             "floods of 50-600 messages in one write, messages split across writes with other traffic in between, abrupt close after any prefix, and "
@@ -295,6 +379,11 @@ def replay(path):
     rp = data["replay"]
     if rp.get("kind") == "bus-history":
         rc = buscheck.replay_history(path, oracle, "C10")
+    elif rp.get("kind") == "spin":
+        r = spin_case(rp["case"])
+        bad = r["cpu_during_quiet_second"] > 0.3 * r["wall"] or not r["bystander_served"] or not r["alive"]
+        print("replay C10: %s" % r)
+        return 1 if bad else 0
     elif rp.get("kind") in ("expiry", "expiry-under-flood"):
         fx = expiry_case(flood=rp["kind"] == "expiry-under-flood")
         ok = all(fx["first_accepted"]) and not fx["late_accepted_while_full"] and all(fx["first_closed_after_timeout"]) and fx["late_accepted_after_timeout"] and fx["alive"]
